@@ -27,6 +27,7 @@ CONSTANTS IDs, MaxDg, MaxRep, MaxEnt, Idle, MaxT, MaxFault,
           TouchOnReply,         \* reply loop refreshes the last-activity time
           CheckEveryDgram,      \* policy checked for every datagram (not only while the cache has room)
           LockAcrossDial,       \* TRUE: connLock is held from the closed-check to the attachment of the socket (FALSE: released during the dial)
+          FailPathCloses,       \* TRUE: a failed dial goes through CloseWithErr (sets closed); FALSE: calls ExitFunc directly
           StampOwnID,           \* reply loop stamps the entry's own ID
           GenHist,              \* record the environment's actions in hist (generator configs)
           SplitExit             \* TRUE: ExitFunc's event and map delete are separate steps (finer, bigger)
@@ -111,7 +112,7 @@ RxInit(fail) ==
      ELSE IF fail \/ ~allowed
      THEN /\ (fail => nfault < MaxFault)
           /\ nfault' = IF fail THEN nfault + 1 ELSE nfault
-          /\ rx' = [rx EXCEPT !.pc = "cA", !.nilerr = FALSE]
+          /\ rx' = [rx EXCEPT !.pc = IF FailPathCloses THEN "cA" ELSE "cB", !.nilerr = FALSE]
           /\ Feed2(Base("Hook") @@ [dst |-> rx.dst, to |-> to], Base("Dial") @@ [dst |-> target, sock |-> 0, ok |-> FALSE])
      ELSE /\ rx' = [rx EXCEPT !.pc = "attach"]
           /\ NoEvent /\ UNCHANGED nfault
